@@ -748,7 +748,7 @@ def m_floor(ctx, interp, args, kwargs):
             raise SymRaise(ValueError("cannot convert float NaN/infinity to integer"))
         r = z3.fpRoundToIntegral(z3.RTN(), t)
         bv = z3.fpToSBV(z3.RTN(), r, z3.BitVecSort(72))
-        return SInt(z3.BV2Int(bv, True))
+        return SInt(z3.BV2Int(bv, True), fpsrc=r)
     raise SymRaise(TypeError("must be real number, not %s" % pytype_of(v).__name__))
 
 
